@@ -131,3 +131,139 @@ void h_fixed_header(void) {
   free(b.p);
 }
 }
+
+// ---------------------------------------------------------------- C19 (i-b): mutations of valid packets
+// A valid packet body of 25-45 bytes with many properties (strings, binary data, pairs, varints) is built by the reference
+// encoder; VK_MUT of its bytes, at forked positions, are replaced by symbolic bytes, and the body may be truncated at a forked
+// length. The real decoder runs on an exact-size heap block. Same oracles as above (accesses inside the packet, no abort,
+// accepted => well-formed for the reference with the same reason code / structure).
+#ifndef VK_MUT
+#define VK_MUT 2
+#endif
+namespace {
+struct tmpl { uint8_t b[64]; size_t n; };
+static void put_props(ref::wr& w, const uint8_t* props, size_t n) { w.varint((uint32_t)n); w.bytes(props, n); }
+static tmpl mutate(const ref::wr& w) {
+  tmpl t; t.n = w.n; for (size_t i = 0; i < w.n; i++) t.b[i] = w.p[i];
+  return t;
+}
+static buf_t sym_mutation(const tmpl& t) {
+  // truncation: the whole body, or cut at a forked length
+  size_t n = t.n; if (vk_choose(2)) { n = vk_choose((uint32_t)t.n); vk_reach("truncated"); }
+  char* p = static_cast<char*>(malloc(n ? n : 1));
+  for (size_t i = 0; i < n; i++) p[i] = (char)t.b[i];
+  size_t lo = 0;
+  for (int m = 0; m < VK_MUT && lo < n; m++) {
+    size_t pos = lo + vk_choose((uint32_t)(n - lo)); p[pos] = (char)vk_sym_u8(); lo = pos + 1;      // strictly increasing positions
+  }
+  return {p, n};
+}
+static const uint8_t k_ack_props[] = {0x1F, 0, 3, 'a', 'b', 'c', 0x26, 0, 2, 'k', '1', 0, 3, 'v', 'a', 'l', 0x26, 0, 1, 'x', 0, 0};
+static const uint8_t k_connack_props[] = {0x11, 0, 0, 1, 0, 0x21, 0, 10, 0x24, 1, 0x25, 1, 0x27, 0, 0, 4, 0, 0x12, 0, 3, 'c', 'i', 'd', 0x22, 0, 5, 0x1F, 0, 2, 'o', 'k',
+                                          0x26, 0, 1, 'k', 0, 1, 'v', 0x28, 1, 0x29, 1, 0x2A, 1, 0x13, 0, 60, 0x1A, 0, 1, 'r', 0x1C, 0, 1, 's', 0x15, 0, 1, 'm', 0x16, 0, 2, 1, 2};
+static const uint8_t k_publish_props[] = {0x01, 1, 0x02, 0, 0, 0, 9, 0x23, 0, 2, 0x08, 0, 2, 'r', 't', 0x09, 0, 2, 7, 8, 0x26, 0, 1, 'k', 0, 1, 'v', 0x0B, 0x81, 0x01, 0x03, 0, 1, 'c'};
+static const uint8_t k_disc_props[] = {0x11, 0, 0, 0, 5, 0x1F, 0, 2, 'g', 'o', 0x26, 0, 1, 'k', 0, 1, 'v', 0x1C, 0, 2, 's', 'r'};
+static const uint8_t k_auth_props[] = {0x15, 0, 2, 'm', 'e', 0x16, 0, 3, 1, 2, 3, 0x1F, 0, 1, 'r', 0x26, 0, 1, 'k', 0, 1, 'v'};
+}
+#define MUT_ACK_HARNESS(NAME, DECODE, CONTROL) \
+void NAME(void) { \
+  uint8_t tb[64]; ref::wr tw = {tb, sizeof tb, 0, false}; tw.u8(0x00); put_props(tw, k_ack_props, sizeof k_ack_props); \
+  buf_t b = sym_mutation(mutate(tw)); detail::byte_citer it(b.p); \
+  auto r = DECODE((uint32_t)b.n, it); \
+  vk_event(1, r.has_value()); \
+  if (r) { \
+    vk_reach("accepted"); \
+    uint8_t full[72]; full[0] = 0; full[1] = 1; for (size_t i = 0; i < b.n; i++) full[2 + i] = (uint8_t)b.p[i]; \
+    uint8_t buf[80]; ref::wr w = {buf, sizeof buf, 0, false}; ref::frame(w, (CONTROL) >> 4, (CONTROL) & 15, full, b.n + 2); \
+    ref::packet k; int rv = ref::decode(buf, w.n, k, ref::L_OMIT_PROPS | ref::L_TRAILING | ref::L_DUP_PROPS); \
+    vk_assert(rv == ref::OK, #DECODE " accepted a mutated body the reference decoder rejects"); \
+    vk_assert(std::get<0>(*r) == k.rc, #DECODE ": reason code differs from the reference"); \
+    const auto& rs = std::get<1>(*r)[prop::reason_string]; const ref::prop_t* e = k.props.find(0x1F); \
+    vk_assert(rs.has_value() == (e != nullptr) && (!e || ref::str_eq(e->a, rs->data(), rs->size())), #DECODE ": Reason String differs from the reference"); \
+    vk_assert((int)std::get<1>(*r)[prop::user_property].size() == k.props.count(0x26), #DECODE ": number of User Properties differs from the reference"); \
+  } else vk_reach("rejected"); \
+  free(b.p); \
+}
+extern "C" {
+MUT_ACK_HARNESS(h_mut_puback, dec::decode_puback, 0x40)
+MUT_ACK_HARNESS(h_mut_pubcomp, dec::decode_pubcomp, 0x70)
+
+void h_mut_suback(void) {
+  uint8_t tb[64]; ref::wr tw = {tb, sizeof tb, 0, false}; put_props(tw, k_ack_props, sizeof k_ack_props); tw.u8(0); tw.u8(1); tw.u8(0x80);
+  buf_t b = sym_mutation(mutate(tw)); detail::byte_citer it(b.p);
+  auto r = dec::decode_suback((uint32_t)b.n, it);
+  vk_event(1, r.has_value());
+  if (r) {
+    vk_reach("accepted");
+    uint8_t full[72]; full[0] = 0; full[1] = 1; for (size_t i = 0; i < b.n; i++) full[2 + i] = (uint8_t)b.p[i];
+    uint8_t buf[80]; ref::wr w = {buf, sizeof buf, 0, false}; ref::frame(w, ref::SUBACK, 0, full, b.n + 2);
+    ref::packet k; int rv = ref::decode(buf, w.n, k, ref::L_OMIT_PROPS | ref::L_TRAILING | ref::L_DUP_PROPS);
+    vk_assert(rv == ref::OK, "decode_suback accepted a mutated body the reference decoder rejects");
+    vk_assert((int)std::get<1>(*r).size() == k.ncodes, "decode_suback: number of reason codes differs from the reference");
+    for (int i = 0; i < k.ncodes && i < ref::MAXC; i++) vk_assert(std::get<1>(*r)[i] == k.codes[i], "decode_suback: reason code differs from the reference");
+  } else vk_reach("rejected");
+  free(b.p);
+}
+void h_mut_connack(void) {
+  uint8_t tb[96]; ref::wr tw = {tb, sizeof tb, 0, false}; tw.u8(1); tw.u8(0);
+  // two halves of the property table, so that the body stays below 64 bytes
+  if (vk_choose(2)) put_props(tw, k_connack_props, 31); else put_props(tw, k_connack_props + 31, sizeof k_connack_props - 31);
+  buf_t b = sym_mutation(mutate(tw)); detail::byte_citer it(b.p);
+  auto r = dec::decode_connack((uint32_t)b.n, it);
+  vk_event(1, r.has_value());
+  if (r) {
+    vk_reach("accepted");
+    uint8_t buf[80]; ref::wr w = {buf, sizeof buf, 0, false}; ref::frame(w, ref::CONNACK, 0, (const uint8_t*)b.p, b.n);
+    ref::packet k; int rv = ref::decode(buf, w.n, k, ref::L_OMIT_PROPS | ref::L_TRAILING | ref::L_DUP_PROPS | ref::L_RESERVED);
+    vk_assert(rv == ref::OK, "decode_connack accepted a mutated body the reference decoder rejects");
+    vk_assert(std::get<1>(*r) == k.rc, "decode_connack: reason code differs from the reference");
+    const auto& p = std::get<2>(*r);
+    const ref::prop_t* e = k.props.find(0x12); vk_assert(p[prop::assigned_client_identifier].has_value() == (e != nullptr) && (!e || ref::str_eq(e->a, p[prop::assigned_client_identifier]->data(), p[prop::assigned_client_identifier]->size())), "decode_connack: Assigned Client Identifier differs from the reference");
+    e = k.props.find(0x21); vk_assert(p[prop::receive_maximum].has_value() == (e != nullptr) && (!e || *p[prop::receive_maximum] == e->num), "decode_connack: Receive Maximum differs from the reference");
+    e = k.props.find(0x27); vk_assert(p[prop::maximum_packet_size].has_value() == (e != nullptr) && (!e || *p[prop::maximum_packet_size] == e->num), "decode_connack: Maximum Packet Size differs from the reference");
+    e = k.props.find(0x13); vk_assert(p[prop::server_keep_alive].has_value() == (e != nullptr) && (!e || *p[prop::server_keep_alive] == e->num), "decode_connack: Server Keep Alive differs from the reference");
+    e = k.props.find(0x16); vk_assert(p[prop::authentication_data].has_value() == (e != nullptr) && (!e || ref::str_eq(e->a, p[prop::authentication_data]->data(), p[prop::authentication_data]->size())), "decode_connack: Authentication Data differs from the reference");
+  } else vk_reach("rejected");
+  free(b.p);
+}
+void h_mut_publish(void) {
+  uint8_t tb[96]; ref::wr tw = {tb, sizeof tb, 0, false}; tw.lstr("to", 2); tw.u16(9); put_props(tw, k_publish_props, sizeof k_publish_props); tw.bytes("pay", 3);
+  buf_t b = sym_mutation(mutate(tw)); detail::byte_citer it(b.p);
+  auto r = dec::decode_publish(0x32, (uint32_t)b.n, it);
+  vk_event(1, r.has_value());
+  if (r) {
+    vk_reach("accepted");
+    uint8_t buf[80]; ref::wr w = {buf, sizeof buf, 0, false}; ref::frame(w, ref::PUBLISH, 2, (const uint8_t*)b.p, b.n);
+    ref::packet k; int rv = ref::decode(buf, w.n, k, ref::L_OMIT_PROPS | ref::L_TRAILING | ref::L_DUP_PROPS | ref::L_PID0);
+    auto& [topic, pid, fl, props, payload] = *r;
+    vk_assert(rv == ref::OK, "decode_publish accepted a mutated body the reference decoder rejects");
+    vk_assert(ref::str_eq(k.topic, topic.data(), topic.size()) && ref::str_eq(k.payload, payload.data(), payload.size()), "decode_publish: topic or payload differs from the reference");
+    vk_assert(pid.has_value() && *pid == k.pid, "decode_publish: packet id differs from the reference");
+    const ref::prop_t* e = k.props.find(0x09); vk_assert(props[prop::correlation_data].has_value() == (e != nullptr) && (!e || ref::str_eq(e->a, props[prop::correlation_data]->data(), props[prop::correlation_data]->size())), "decode_publish: Correlation Data differs from the reference");
+    e = k.props.find(0x08); vk_assert(props[prop::response_topic].has_value() == (e != nullptr) && (!e || ref::str_eq(e->a, props[prop::response_topic]->data(), props[prop::response_topic]->size())), "decode_publish: Response Topic differs from the reference");
+    vk_assert((int)props[prop::subscription_identifier].size() == k.props.count(0x0B), "decode_publish: number of Subscription Identifiers differs from the reference");
+    e = k.props.find(0x0B); if (e) vk_assert((uint32_t)props[prop::subscription_identifier][0] == e->num, "decode_publish: Subscription Identifier differs from the reference");
+    e = k.props.find(0x02); vk_assert(props[prop::message_expiry_interval].has_value() == (e != nullptr) && (!e || *props[prop::message_expiry_interval] == e->num), "decode_publish: Message Expiry differs from the reference");
+  } else vk_reach("rejected");
+  free(b.p);
+}
+#define MUT_RC_HARNESS(NAME, DECODE, TYPE, PROPS) \
+void NAME(void) { \
+  uint8_t tb[64]; ref::wr tw = {tb, sizeof tb, 0, false}; tw.u8(TYPE == ref::AUTH ? 0x18 : 0x8B); put_props(tw, PROPS, sizeof PROPS); \
+  buf_t b = sym_mutation(mutate(tw)); detail::byte_citer it(b.p); \
+  auto r = DECODE((uint32_t)b.n, it); \
+  vk_event(1, r.has_value()); \
+  if (r) { \
+    vk_reach("accepted"); \
+    uint8_t buf[80]; ref::wr w = {buf, sizeof buf, 0, false}; ref::frame(w, TYPE, 0, (const uint8_t*)b.p, b.n); \
+    ref::packet k; int rv = ref::decode(buf, w.n, k, ref::L_OMIT_PROPS | ref::L_TRAILING | ref::L_DUP_PROPS); \
+    vk_assert(rv == ref::OK, #DECODE " accepted a mutated body the reference decoder rejects"); \
+    vk_assert(std::get<0>(*r) == k.rc, #DECODE ": reason code differs from the reference"); \
+    const auto& rs = std::get<1>(*r)[prop::reason_string]; const ref::prop_t* e = k.props.find(0x1F); \
+    vk_assert(rs.has_value() == (e != nullptr) && (!e || ref::str_eq(e->a, rs->data(), rs->size())), #DECODE ": Reason String differs from the reference"); \
+  } else vk_reach("rejected"); \
+  free(b.p); \
+}
+MUT_RC_HARNESS(h_mut_disconnect, dec::decode_disconnect, ref::DISCONNECT, k_disc_props)
+MUT_RC_HARNESS(h_mut_auth, dec::decode_auth, ref::AUTH, k_auth_props)
+}
